@@ -99,6 +99,7 @@ def shrink(prop, runner, finding, budget=40, seconds=90):
     bounded in rounds and in wall-clock time (large failing inputs are reported as they are)"""
     cur = finding
     t0 = time.time()
+    runner.call_timeout = 60
     for _ in range(budget):
         if time.time() - t0 > seconds:
             break
@@ -115,6 +116,7 @@ def shrink(prop, runner, finding, budget=40, seconds=90):
         if nxt is None:
             break
         cur = nxt
+    runner.call_timeout = None
     return cur
 
 
